@@ -46,8 +46,25 @@ from vlib.common import CheckError, Phase, log, pmap, subdir
 from vlib.report import Report
 
 PID = "C20"
-ALLDEVS = ["EmptyBodyPop", "IrpcEmptyOnce", "TokenStraddle", "ShiftExcess", "IrpPosNext", "IrpDoubleCleanup"]
+ALLDEVS = ["EmptyBodyPop", "IrpcEmptyOnce", "TokenStraddle", "ShiftExcess", "IrpPosNext", "IrpDoubleCleanup",
+           "AllArgsLeadingEmpty"]
 FIXED_ALL = "{" + ", ".join('"%s"' % d for d in ALLDEVS) + "}"
+
+
+def repaired_in_repo():
+    """named deviations whose repair is recorded as applied (known_findings/*.json, "status": "fixed", field "dev"):
+    the "code as it is" instance of the model is the pinned code with exactly these repairs"""
+    import glob
+    import json
+    out = set()
+    for path in glob.glob(os.path.join(os.path.dirname(os.path.dirname(os.path.abspath(__file__))), "known_findings", "C*.json")):
+        try:
+            for f in json.load(open(path)).get("findings", []):
+                if f.get("status") == "fixed" and f.get("dev") in ALLDEVS:
+                    out.add(f["dev"])
+        except (OSError, ValueError):
+            pass
+    return "{" + ", ".join('"%s"' % d for d in sorted(out)) + "}"
 FAMILIES = ["main", "incl", "after", "expect"]
 DIALECT = "68000"
 INVS = "PositionIsPlanted NoCleanLineNamed PositionsIdentify ExpectExact ExpectProtocol"
@@ -63,7 +80,7 @@ def _cfg(name, text):
 def mc_cfg(family, tier, fixed, dump):
     return ('CONSTANTS Fixed = %s HasAttrs = FALSE MaxNum = 2200 Family = "%s" Tier = "%s"\nINIT Init\nNEXT Next\n'
             'INVARIANTS %s%s\nCHECK_DEADLOCK FALSE\n'
-            % (FIXED_ALL if fixed else "{}", family, tier, "Dump " if dump else "", INVS))
+            % (FIXED_ALL if fixed else repaired_in_repo(), family, tier, "Dump " if dump else "", INVS))
 
 
 def options(op):
